@@ -39,14 +39,15 @@ type Cmd struct {
 	Ref    []int    `json:"ref"`
 	Op     string   `json:"op"`
 	From   int      `json:"from"`
-	Inputs [][]int  `json:"inputs,omitempty"` // corrupt: byte strings to decode
-	Seq    []Val    `json:"seq,omitempty"`    // stream: values of further records
-	SeqEnc [][]int  `json:"seqenc,omitempty"` // stream: their reference encodings
-	Scheds [][]int  `json:"scheds,omitempty"` // stream: fragmentation patterns
-	Errs   []string `json:"errs,omitempty"`   // fault kinds
-	V1Pid  string   `json:"v1pid,omitempty"`  // evolve: package of the older schema version
-	SkipB  []bool   `json:"skipb,omitempty"`  // corrupt: inputs not to run through UnmarshalBebop
-	SkipS  []bool   `json:"skips,omitempty"`  // corrupt: inputs not to run through DecodeBebop
+	Inputs [][]int  `json:"inputs,omitempty"`     // corrupt: byte strings to decode
+	Seq    []Val    `json:"seq,omitempty"`        // stream: values of further records
+	SeqEnc [][]int  `json:"seqenc,omitempty"`     // stream: their reference encodings
+	Scheds [][]int  `json:"scheds,omitempty"`     // stream: fragmentation patterns
+	Errs   []string `json:"errs,omitempty"`       // fault kinds
+	V1Pid  string   `json:"v1pid,omitempty"`      // evolve: package of the older schema version
+	SkipB  []bool   `json:"skipb,omitempty"`      // corrupt: inputs not to run through UnmarshalBebop
+	SkipS  []bool   `json:"skips,omitempty"`      // corrupt: inputs not to run through DecodeBebop
+	Big    bool     `json:"bigpayload,omitempty"` // stream: also with the first string / byte array stretched beyond buffer sizes
 }
 
 // Event is one observation; fields are omitted when not applicable.
@@ -191,8 +192,9 @@ func liftRecord(pi *pkgInfo, root string, rec bebop.Record) (v Val, err error) {
 
 // posReader hands out the bytes of data and counts what was consumed.
 type posReader struct {
-	data []byte
-	pos  int
+	data    []byte
+	pos     int
+	dataEOF bool
 }
 
 func (r *posReader) Read(p []byte) (int, error) {
@@ -201,6 +203,9 @@ func (r *posReader) Read(p []byte) (int, error) {
 	}
 	n := copy(p, r.data[r.pos:])
 	r.pos += n
+	if r.dataEOF && r.pos == len(r.data) {
+		return n, io.EOF
+	}
 	return n, nil
 }
 
@@ -406,7 +411,7 @@ func opCodec(pi *pkgInfo, c *Cmd) {
 // opCuts: every strict prefix of the reference encoding into both checked decoders.
 func opCuts(pi *pkgInfo, c *Cmd) {
 	ref := bytesFromInts(c.Ref)
-	apis := []string{"UnmarshalBebop", "DecodeBebop"}
+	apis := []string{"UnmarshalBebop", "DecodeBebop", "DecodeBebop (last bytes with io.EOF)"}
 	m := 0
 	for _, api := range apis {
 		for k := 0; k < len(ref); k++ {
@@ -431,6 +436,10 @@ func cutEvent(pi *pkgInfo, c *Cmd, m int, api string, in []byte) *Event {
 		e.Res, e.Msg, e.Big, e.Alloc = call(len(in), func() error { return rec.UnmarshalBebop(in) })
 	case "DecodeBebop":
 		pr := &posReader{data: in}
+		e.Res, e.Msg, e.Big, e.Alloc = call(len(in), func() error { return rec.DecodeBebop(pr) })
+	default:
+		// the reader hands out the last bytes it has together with io.EOF (the io.Reader contract allows it)
+		pr := &posReader{data: in, dataEOF: true}
 		e.Res, e.Msg, e.Big, e.Alloc = call(len(in), func() error { return rec.DecodeBebop(pr) })
 	}
 	return e
